@@ -7,12 +7,14 @@ pub mod c06;
 pub mod c07;
 pub mod c08;
 pub mod c09;
+pub mod c10;
+pub mod c13;
 pub mod c15;
 pub mod c19;
 pub mod c20;
 
 pub fn all_ids() -> Vec<&'static str> {
-    vec!["C01", "C02", "C03", "C06", "C07", "C08", "C09", "C15", "C19", "C20"]
+    vec!["C01", "C02", "C03", "C06", "C07", "C08", "C09", "C10", "C13", "C15", "C19", "C20"]
 }
 
 pub fn get(id: &str) -> Option<Property> {
@@ -24,6 +26,8 @@ pub fn get(id: &str) -> Option<Property> {
         "C07" => Some(c07::property()),
         "C08" => Some(c08::property()),
         "C09" => Some(c09::property()),
+        "C10" => Some(c10::property()),
+        "C13" => Some(c13::property()),
         "C15" => Some(c15::property()),
         "C19" => Some(c19::property()),
         "C20" => Some(c20::property()),
